@@ -22,11 +22,21 @@ type slowLister struct {
 	deadline time.Time
 	hadDL    bool
 	called   time.Time
+	fired    chan time.Time
 }
 
 func (l *slowLister) ListPods(ctx context.Context, ns string) ([]*corev1.Pod, error) {
 	l.called = time.Now()
 	l.deadline, l.hadDL = ctx.Deadline()
+	if l.hadDL {
+		// a timer of our own for the same instant: when it really fires tells how late timers are on this machine right now
+		l.fired = make(chan time.Time, 1)
+		go func(at time.Time) {
+			t := time.NewTimer(time.Until(at))
+			<-t.C
+			l.fired <- time.Now()
+		}(l.deadline)
+	}
 	select {
 	case <-time.After(l.delay):
 	case <-ctx.Done():
@@ -106,10 +116,20 @@ func runC12ListTime(c *Ctx) {
 			c.Violate(Finding{Desc: "pod listing called without a deadline", Key: "no-deadline", Input: in})
 			continue
 		}
+		// "long after the deadline" is measured from when a timer set for the deadline really fired on this machine
+		ref := l.deadline
+		select {
+		case f := <-l.fired:
+			if f.After(ref) {
+				ref = f
+			}
+		case <-time.After(5 * time.Second):
+			ref = time.Now()
+		}
 		late, startsMs := 0, []int64{}
 		for _, s := range ev.starts {
 			startsMs = append(startsMs, s.Sub(l.called).Milliseconds())
-			if s.After(l.deadline.Add(300 * time.Millisecond)) {
+			if s.After(ref.Add(300 * time.Millisecond)) {
 				late++
 			}
 		}
